@@ -297,6 +297,22 @@ func (p *policyDecider) choose(step int, cand []int, last lastEvent) int {
 			return last.worker
 		}
 		return cand[p.r.Intn(len(cand))]
+	case "syncsw":
+		// keep running the current worker; right before / after a critical section, an atomic
+		// operation or a Once (where correctly locked but logically wrong sharing shows: a
+		// handle, an index or half of a pair carried from one critical section into the next)
+		// switch to another worker with probability 1/arg and let THAT one run on
+		if last.worker >= 0 && contains(cand, last.worker) {
+			if !isSyncSite(last.site) || len(cand) == 1 || p.r.Intn(p.arg) != 0 {
+				return last.worker
+			}
+			for {
+				if c := cand[p.r.Intn(len(cand))]; c != last.worker {
+					return c
+				}
+			}
+		}
+		return cand[p.r.Intn(len(cand))]
 	case "herd":
 		if p.herding {
 			if last.worker >= 0 && last.kind == evYield && isInitEnter(last.site) && hookOnceIdx(last.site) < 2 {
@@ -337,6 +353,8 @@ type schedOutcome struct {
 	onceBlocked    int
 	realBlocked    int
 	gcs, gcDone    int
+	stallFired     bool // a worker's destination really stalled (it reached that sink call while others were unfinished)
+	stallReleased  bool // ... and was let go after every other worker had finished
 	preemptions    int
 	midInitSwitch  int
 	pairSet        map[uint32]struct{}
@@ -397,7 +415,7 @@ func phaseOf(site uint16) string {
 
 // runSchedule executes the clients' scripts on env under dec. trees[i] is client i's
 // private tree pool (pre-filled for RenderPre operations).
-func runSchedule(env *Env, clients [][]Op, trees []map[int]*treeHandle, dec decider, gcAt []int) *schedOutcome {
+func runSchedule(env *Env, clients [][]Op, trees []map[int]*treeHandle, dec decider, gcAt []int, stall *StallPlan) *schedOutcome {
 	n := len(clients)
 	out := &schedOutcome{results: make([][]OpResult, n), pairSet: map[uint32]struct{}{}, phaseOverlap: map[string]int{}, sitesPreempted: map[uint16]int{}}
 	s := &simState{central: newGate(), byGoid: map[uint64]*worker{}}
@@ -480,7 +498,23 @@ func runSchedule(env *Env, clients [][]Op, trees []map[int]*treeHandle, dec deci
 	unblockTried := -1
 	watchdog := 0
 	allBlockedPolls := 0
+	// stalled destination (fault kind "stall"): worker stalled is parked inside a sink call and
+	// is not released while any other worker is unfinished
+	sinkCalls := make([]int, n)
+	stalled := -1
+	othersUnfinished := func(g int) bool {
+		for i := 0; i < n; i++ {
+			if i != g && state[i] != wsDone {
+				return true
+			}
+		}
+		return false
+	}
 	for alive > 0 {
+		if stalled >= 0 && !othersUnfinished(stalled) {
+			stalled = -1 // everybody else is done: the destination accepts again
+			out.stallReleased = true
+		}
 		// A worker that blocked inside a synchronisation primitive of the code under test (one
 		// the simulator has no seam for) is woken by the Go runtime, not by the scheduler, as
 		// soon as whoever ran since released the primitive. Such a worker is running again:
@@ -509,7 +543,7 @@ func runSchedule(env *Env, clients [][]Op, trees []map[int]*treeHandle, dec deci
 		if running == 0 {
 			var cand []int
 			for i := 0; i < n; i++ {
-				if state[i] == wsParked {
+				if state[i] == wsParked && i != stalled {
 					cand = append(cand, i)
 				}
 			}
@@ -589,7 +623,9 @@ func runSchedule(env *Env, clients [][]Op, trees []map[int]*treeHandle, dec deci
 				case wsRunning:
 					someoneRunning = true
 				case wsParked, wsOnceBlocked:
-					someoneSchedulable = true
+					if i != stalled {
+						someoneSchedulable = true
+					}
 				case wsRealBlocked:
 					if !isSyncBlockedState(sts[s.workers[i].goid]) {
 						someoneRunning = true // woken by the runtime; picked up at the top of the loop
@@ -612,6 +648,9 @@ func runSchedule(env *Env, clients [][]Op, trees []map[int]*treeHandle, dec deci
 				allBlockedPolls++
 				if allBlockedPolls >= 8 {
 					out.deadlock = "all unfinished workers are blocked inside synchronisation primitives"
+					if stalled >= 0 {
+						out.deadlock = fmt.Sprintf("worker %d's destination has stalled (it accepts no more bytes) and every other unfinished worker is blocked inside a synchronisation primitive: calls on a shared instance wait for a neighbour's destination", stalled)
+					}
 				}
 			}
 			if out.trouble != "" || out.deadlock != "" {
@@ -649,6 +688,13 @@ func runSchedule(env *Env, clients [][]Op, trees []map[int]*treeHandle, dec deci
 			out.onceBlocked++
 		case evYield:
 			state[g] = wsParked
+			if site == siteSink {
+				sinkCalls[g]++
+				if stall != nil && stalled < 0 && !out.stallFired && g == stall.Worker && sinkCalls[g] > stall.After && othersUnfinished(g) {
+					stalled = g
+					out.stallFired = true
+				}
+			}
 			if isHookSite(site) {
 				switch hookPhase(site) {
 				case 0:
@@ -864,7 +910,7 @@ func execSched(spec *RunSpec, st *Stats) *Violation {
 		dec = newPolicyDecider(spec.Policy, spec.PolicyArg, spec.SchedSeed, n)
 	}
 	_ = newRaceReports() // anything printed before this run is not this run's
-	out := runSchedule(env, spec.Clients, trees, dec, spec.GCAt)
+	out := runSchedule(env, spec.Clients, trees, dec, spec.GCAt, spec.Stall)
 	race := newRaceReports()
 	if spec.Decisions == nil {
 		spec.Decisions = out.decisions
@@ -878,6 +924,12 @@ func execSched(spec *RunSpec, st *Stats) *Violation {
 		st.Add("probe.preemptions", int64(out.preemptions))
 		st.Add("probe.mid_init_switch", int64(out.midInitSwitch))
 		st.Add("fired.gc", int64(out.gcs))
+		if out.stallFired {
+			st.Inc("fired.stall")
+		}
+		if out.stallReleased {
+			st.Inc("probe.stalled_worker_released_after_all_others_finished")
+		}
 		for k, v := range out.phaseOverlap {
 			st.Add("overlap."+k, int64(v))
 		}
